@@ -11,6 +11,9 @@ file and on its own output) and
     (`unphaseCur`) must predict exactly that exception class (this is how F2 is recognised as F2).
 History cases: a simulated scenario is phased with the real `whatshap phase`; unphase(phased) must give the same
 data lines as unphase(original), and a second unphase must change nothing.
+Since round E04 also: the header (`unphaseHeader`: lines of the output in order, once and twice; no phase-tag definition left,
+no other line lost), idempotence judged on the whole output including the header (F61), every 4th file also through
+`whatshap unphase -` (standard input), and the bridge `ofC04` from the C04 record model (`c13.of_c04`) on every input.
 """
 import collections, concurrent.futures, json, os, re, shutil, subprocess
 
@@ -29,11 +32,14 @@ MANIFEST = dict(
          "specification function, which leaves no phase information, preserves allele multisets and every other field, is "
          "idempotent and is invariant under phase-only edits; HEAD's loop raises exactly on the characterised call shapes. "
          "Tied to the working tree by running the real CLI on generated VCFs and comparing field by field with the model, "
-         "plus a text-level oracle of the property on every (input, output) pair and phase/unphase/unphase histories",
+         "plus a text-level oracle of the property on every (input, output) pair and phase/unphase/unphase histories; "
+         "unphase_header is modelled (only phase lines/definitions go, idempotent with a single phasing line; F61 witness), "
+         "and the edit of C04's writer model is proved to be a phase-only edit (unphase after whatshap phase = unphase)",
     design_ref="DESIGN.md §5 C13",
     note="trusted: Lean kernel, axioms ⊆ {propext, Classical.choice, Quot.sound}; hand-written model; htslib/pysam parsing "
          "and serialisation are outside the model (the harness reads input and output as plain text); well-formed = GT first "
-         "in FORMAT, FORMAT column present when the header has samples; header lines are only observed, not judged",
+         "in FORMAT, FORMAT column present when the header has samples; header lines are compared by (key, ID) / (key, text); the "
+         "phase->unphase clause is proved across the C04 writer model (unphase_after_whatshap_phase) for runs without genotype changes",
     technique="Lean 4 model with exception-raising primitives + totality/idempotence/permutation proofs + CLI differential run",
 )
 ASSUMPTIONS = [
